@@ -86,6 +86,7 @@ func (b *Broker) send(ctx context.Context, id string, responder chan map[string]
 	if len(result) == 0 {
 		return false
 	}
+	verifYield("send.deliver", id)
 	responder <- result
 	go b.doHeartBeat(ctx, id)
 	return true
@@ -95,6 +96,7 @@ func (b *Broker) doHeartBeat(ctx context.Context, id string) {
 	if b.HeartBeat <= 0 {
 		return
 	}
+	verifYield("heartbeat.start", id)
 	signal := make(chan bool, 1)
 	b.signals.Upsert(id, signal, func(exist bool, valueInMap interface{}, newValue interface{}) interface{} {
 		if exist {
@@ -144,6 +146,7 @@ func (b *Broker) subscribe(ctx context.Context, topic string) bool {
 
 func (b *Broker) response(ctx context.Context, id string) {
 	if responder, ok := b.responders.Pop(id); ok {
+		verifYield("response.popped", id)
 		responder := responder.(chan map[string][]Message)
 		if !b.send(ctx, id, responder) {
 			if !b.responders.SetIfAbsent(id, responder) {
@@ -183,6 +186,7 @@ func (b *Broker) message(ctx context.Context) map[string][]Message {
 	}
 	responder := make(chan map[string][]Message, 1)
 	if !b.send(ctx, id, responder) {
+		verifYield("poll.register", id)
 		b.responders.Upsert(id, responder, func(exist bool, valueInMap interface{}, newValue interface{}) interface{} {
 			if exist {
 				valueInMap.(chan map[string][]Message) <- nil
@@ -194,6 +198,7 @@ func (b *Broker) message(ctx context.Context) map[string][]Message {
 			defer cancel()
 			select {
 			case <-ctx.Done():
+				verifYield("poll.timeout", id)
 				return b.timeout(id, responder)
 			case result := <-responder:
 				return result
